@@ -18,7 +18,7 @@ from .algebra import Evaluator, Poly, Undecided
 from .defuse import loc_name
 from .model import AnalysisError, const_value, src
 from .regions import ArrVal, Event, Extractor
-from .struct import call_name
+from .struct import call_name, kwarg
 
 NIDQ = ("MN", "MA", "XA", "DW")
 WRAPPERS = ("int", "float", "float32", "float64", "double", "int32", "int64", "sum", "asarray", "array", "abs")
@@ -138,6 +138,9 @@ class SegExtractor(Extractor):
         self.returned: Optional[Dict[str, ArrVal]] = None
         self.scalars: Dict[str, Poly] = {}
         self.bools: Dict[str, bool] = {}
+        self.strcols: Dict[str, int] = {}        # name -> field index: one text column of the whole IMRO table (zip(*re.findall(...)))
+        self.rowtables: Dict[str, list] = {}     # name -> [(field index, count)] : np.array([colA, colB], ...)[:, SEL]
+        self.findings: List[Tuple[ast.AST, str]] = []   # defects the value model itself establishes (reported by the rule that drives it)
 
     # ---- tags
     def tag(self, p: Poly, per_entry: bool = False) -> str:
@@ -211,6 +214,12 @@ class SegExtractor(Extractor):
             col = self._table_column(e)
             if col is not None:
                 return col
+            if isinstance(e.value, ast.Name) and e.value.id in self.rowtables:
+                ok, k = const_value(e.slice)
+                rows = self.rowtables[e.value.id]
+                if ok and isinstance(k, int) and -len(rows) <= k < len(rows):
+                    fld, cnt = rows[k]
+                    return ArrVal(cnt, [Event(Poly.const(0), cnt, self.tag(Poly.sym(f"G{fld % self.ev.nfields}"), True), Poly.const(0), None, e)])
             return super().value(e)
         if isinstance(e, ast.BinOp) and isinstance(e.op, (ast.Mult, ast.Div)):
             lv, rv = self.value(e.left), self.value(e.right)
@@ -235,6 +244,77 @@ class SegExtractor(Extractor):
                 return self._scale(rv, recip, e)
             return None
         return super().value(e)
+
+    # ---- whole-table text columns:  channel, bank, ref, ap, lf = tuple(zip(*re.findall(PATTERN, md['imroTbl'])))
+    def _is_full_findall(self, e: ast.AST) -> bool:
+        while isinstance(e, ast.Call) and call_name(e) in ("tuple", "list") and len(e.args) == 1:
+            e = e.args[0]
+        return isinstance(e, ast.Call) and call_name(e) == "findall" and "imroTbl" in src(e)
+
+    def _zip_columns(self, e: ast.AST) -> bool:
+        while isinstance(e, ast.Call) and call_name(e) in ("tuple", "list") and len(e.args) == 1:
+            e = e.args[0]
+        return isinstance(e, ast.Call) and call_name(e) == "zip" and len(e.args) == 1 and isinstance(e.args[0], ast.Starred) and self._is_full_findall(e.args[0].value)
+
+    def _column_order(self, e: ast.AST):
+        """Order in which `argsort(<key>)` lists the table rows: 'table' when the key is the channel column AS NUMBERS (the IMRO table lists the
+        channels in increasing order), 'text' when it is the channel column as text.  None: not understood."""
+        if not (isinstance(e, ast.Call) and call_name(e) == "argsort" and (e.args or isinstance(e.func, ast.Attribute))):
+            return None
+        key = e.args[0] if e.args else e.func.value
+        numeric = False
+        cur = key
+        for _ in range(6):
+            if isinstance(cur, ast.Call) and call_name(cur) in ("array", "asarray", "fromiter") and cur.args:
+                dt = kwarg(cur, "dtype") or (cur.args[1] if len(cur.args) > 1 else None)
+                if dt is not None and any(t in src(dt) for t in ("int", "float")):
+                    numeric = True
+                cur = cur.args[0]
+            elif isinstance(cur, ast.Call) and call_name(cur) == "astype" and isinstance(cur.func, ast.Attribute) and cur.args:
+                if any(t in src(cur.args[0]) for t in ("int", "float")):
+                    numeric = True
+                cur = cur.func.value
+            elif isinstance(cur, (ast.ListComp, ast.GeneratorExp)) and len(cur.generators) == 1 and isinstance(cur.elt, ast.Call) and call_name(cur.elt) in ("int", "float"):
+                numeric = True
+                cur = cur.generators[0].iter
+            elif isinstance(cur, ast.Call) and call_name(cur) in ("list", "tuple") and cur.args:
+                cur = cur.args[0]
+            else:
+                break
+        if isinstance(cur, ast.Name) and cur.id in self.strcols and self.strcols[cur.id] == 0:
+            return "table" if numeric else "text"
+        return None
+
+    def _selected_rows(self, e: ast.Subscript, node):
+        """np.array([colA, colB], dtype=..)[:, SEL]  ->  [(field, count)] with SEL = argsort(channel key)[:n] or slice(None, n)"""
+        if not (isinstance(e.slice, ast.Tuple) and len(e.slice.elts) == 2):
+            return None
+        r, sel = e.slice.elts
+        if not (isinstance(r, ast.Slice) and r.lower is None and r.upper is None and r.step is None):
+            return None
+        t = e.value
+        while isinstance(t, ast.Call) and call_name(t) == "astype" and isinstance(t.func, ast.Attribute):
+            t = t.func.value
+        if not (isinstance(t, ast.Call) and call_name(t) in ("array", "asarray", "vstack", "stack") and t.args and isinstance(t.args[0], (ast.List, ast.Tuple))):
+            return None
+        cols = []
+        for x in t.args[0].elts:
+            if not (isinstance(x, ast.Name) and x.id in self.strcols):
+                return None
+            cols.append(self.strcols[x.id])
+        if isinstance(sel, ast.Slice) and sel.lower is None and sel.step is None and sel.upper is not None:
+            cnt, order = self.ev.ev(sel.upper), "table"
+        elif isinstance(sel, ast.Subscript) and isinstance(sel.slice, ast.Slice) and sel.slice.lower is None and sel.slice.step is None and sel.slice.upper is not None:
+            order = self._column_order(sel.value)
+            if order is None:
+                return None
+            cnt = self.ev.ev(sel.slice.upper)
+        else:
+            return None
+        if order == "text":
+            self.findings.append((node, f"`{src(sel)[:80]}` orders the IMRO rows by the channel column AS TEXT: '10' sorts before '2', so from the 11th channel on the "
+                                        "gain pair of another channel is picked (0, 1, 10, 100, 101, ..., 11, 110, ...) - invisible while every channel has the same gain"))
+        return [(k, cnt) for k in cols]
 
     def _concat(self, elts, node) -> Optional[ArrVal]:
         pos = Poly.const(0)
@@ -379,6 +459,18 @@ class SegExtractor(Extractor):
     def step(self, s: ast.stmt):
         if isinstance(s, (ast.Assign, ast.Return, ast.AugAssign)):
             s = self._resolve_ifexp(s)
+        if isinstance(s, ast.Assign) and len(s.targets) == 1 and isinstance(s.targets[0], (ast.Tuple, ast.List)) \
+                and all(isinstance(t, ast.Name) for t in s.targets[0].elts) and self._zip_columns(s.value):
+            self.strcols = dict(self.strcols)
+            for i, t in enumerate(s.targets[0].elts):
+                self.strcols[t.id] = i
+            return
+        if isinstance(s, ast.Assign) and len(s.targets) == 1 and isinstance(s.targets[0], ast.Name) and isinstance(s.value, ast.Subscript):
+            rows = self._selected_rows(s.value, s)
+            if rows is not None:
+                self.rowtables = dict(self.rowtables)
+                self.rowtables[s.targets[0].id] = rows
+                return
         if isinstance(s, ast.Assign) and len(s.targets) == 1 and isinstance(s.targets[0], (ast.Tuple, ast.List)) \
                 and all(isinstance(t, ast.Name) for t in s.targets[0].elts):
             # n_mn, n_ma, n_xa, n_dw = (int(n) for n in md["snsMnMaXaDw"])
